@@ -151,6 +151,23 @@ func runC07(em *vEmitter, r *vRng) {
 		add(base64.URLEncoding.EncodeToString(e.nonce[:11])+":"+base64.URLEncoding.EncodeToString(e.ct), "nonce-short")
 		add(base64.URLEncoding.EncodeToString(append(append([]byte{}, e.nonce...), 0))+":"+base64.URLEncoding.EncodeToString(e.ct), "nonce-long")
 		add(":"+base64.URLEncoding.EncodeToString(e.ct), "nonce-empty")
+		// insertions: one character at every position; junk appended to / prepended before each field
+		ins := []byte{'A', '=', '!', ' ', '\n', ':', 0, '~'}
+		for i := 0; i <= len(e.text); i++ {
+			for _, s := range ins {
+				if !thorough && r.intn(2) != 0 {
+					continue
+				}
+				add(e.text[:i]+string(s)+e.text[i:], "text-char-inserted")
+			}
+		}
+		colon := strings.IndexByte(e.text, ':')
+		for _, junk := range []string{"A", "AA", "AAA", "AAAA", "=", "==", "!", "!junk", " ", "~~~~", "%3A", "\x00", "A=", "AAAAAAAAAAAAAAAA"} {
+			add(e.text[:colon]+junk+e.text[colon:], "nonce-text-extended")
+			add(junk+e.text, "nonce-text-prefixed")
+			add(e.text+junk, "ct-text-extended")
+			add(e.text[:colon+1]+junk+e.text[colon+1:], "ct-text-prefixed")
+		}
 		add(e.text+"\n", "text-trailing-newline")
 		add(e.text+":", "text-trailing-colon")
 		add(strings.Replace(e.text, ":", "\r\n:", 1), "text-newline-inside")
